@@ -40,10 +40,12 @@ def gen_window_cmds(rng, sessions, sel, sizes, next_id):
             if r < 0.9:
                 return [[1, STAR]]
             return [[rng.randint(1, top), rng.randint(1, top)], [STAR, STAR]]
-        k = rng.choices(["Store", "Fetch", "Expunge", "Copy", "Move", "Append", "Noop"],
-                        [30, 18, 12, 14, 10, 8, 6])[0]
+        k = rng.choices(["Store", "Fetch", "Expunge", "Copy", "Move", "Append", "Noop", "Search"],
+                        [30, 18, 12, 14, 10, 8, 6, 9])[0]
         c = {"sess": s, "act": k, "uid": uid, "set": [], "mode": "", "flags": [], "silent": False,
-             "mbox": "", "msgid": 0, "peek": True}
+             "mbox": "", "msgid": 0, "peek": True, "key": ""}
+        if k == "Search":
+            c.update(key=rng.choice(["DELETED", "UNSEEN", "SEEN", "FLAGGED", "ANSWERED", "ALL", "NOT DELETED", "KEYWORD k1"]))
         if k == "Store":
             c.update(set=rset(), mode=rng.choice("+-="), flags=rng.sample(FLAGS, rng.choice([1, 1, 2])),
                      silent=rng.random() < 0.25)
@@ -70,7 +72,7 @@ def gen_conflict_window(rng, sessions, sel, sizes, next_id):
     COPY / MOVE between the two mailboxes."""
     def base(s, act, **kw):
         c = {"sess": s, "act": act, "uid": False, "set": [[1, STAR]], "mode": "", "flags": [], "silent": False,
-             "mbox": "", "msgid": 0, "peek": True}
+             "mbox": "", "msgid": 0, "peek": True, "key": ""}
         c.update(kw)
         return c
     by_mb = {}
@@ -78,7 +80,8 @@ def gen_conflict_window(rng, sessions, sel, sizes, next_id):
         by_mb.setdefault(sel[s], []).append(s)
     other = lambda m: "b" if m == "inbox" else "inbox"  # noqa
     same = [ss for ss in by_mb.values() if len(ss) >= 2]
-    kind = rng.choice(["copy_store", "fetch_store", "move_store", "opposite", "expunge_fetch", "copy_expunge"] +
+    kind = rng.choice(["copy_store", "fetch_store", "move_store", "opposite", "expunge_fetch", "copy_expunge",
+                       "search_store", "search_fetch"] +
                       (["copy_late"] * 3 if len(sessions) >= 4 else []))
     cmds = []
     if kind == "copy_late" and same:
@@ -113,6 +116,11 @@ def gen_conflict_window(rng, sessions, sel, sizes, next_id):
             cmds = [base(a, "Fetch", peek=False), base(b, "Store", mode="+", flags=fl, uid=True)]
         elif kind == "move_store":
             cmds = [base(a, "Move", mbox=other(m)), base(b, "Store", mode="+", flags=fl)]
+        elif kind == "search_store":
+            cmds = [base(a, "Search", set=[], key=rng.choice(["SEEN", "UNSEEN", "FLAGGED", "KEYWORD k1"]), uid=rng.random() < 0.5),
+                    base(b, "Store", mode=rng.choice("+-"), flags=rng.sample(["Seen", "Flagged", "k1"], 2))]
+        elif kind == "search_fetch":
+            cmds = [base(a, "Search", set=[], key=rng.choice(["SEEN", "UNSEEN"])), base(b, "Fetch", peek=False)]
         elif kind == "expunge_fetch":
             cmds = [base(a, "Expunge", set=[]), base(b, "Fetch", peek=rng.random() < 0.5, uid=rng.random() < 0.5)]
         else:
@@ -142,6 +150,8 @@ def render(c):
         data = make_msg(c["msgid"], crlf=True)
         return (f"APPEND {c['mbox']} ({' '.join(wire_flag(f) for f in c['flags'])}) ".encode()
                 + b"{%d}\r\n" % len(data) + data)
+    if k == "Search":
+        return f"{u}SEARCH {c['key']}"
     if k == "PopQuit":
         return "POP3 QUIT"
     return "NOOP"
@@ -208,7 +218,7 @@ async def run_windows(d: MailDriver, rng, sessions, nwin, stats, pop3=False):
             if not (ps.closed or ps.task.done()):
                 cmds = [c for c in cmds if c["sess"] != "P"]
                 cmds.append({"sess": "P", "act": "PopQuit", "uid": True, "set": [], "mode": "", "flags": [], "silent": False,
-                             "mbox": "inbox", "msgid": 0, "peek": True, "uids": [snap[k - 1] for k in ks],
+                             "mbox": "inbox", "msgid": 0, "peek": True, "key": "", "uids": [snap[k - 1] for k in ks],
                              "delay": rng.choice([0, 0, 0.01, 0.02])})
         pre = [x for c in cmds for x in c.get("pre", [])]
         if pre:
@@ -279,6 +289,11 @@ async def run_windows(d: MailDriver, rng, sessions, nwin, stats, pop3=False):
                     else:
                         code = {"name": "COPYUID", "src": parse_uidset(parts[1]), "dst": parse_uidset(parts[2])}
             c2 = dict(c)
+            found = []
+            for it in r.items:
+                if it["kind"] == "SEARCH":
+                    found = list(it["nums"])
+            c2.update(found=found)
             c2.update(status=r.status if r.status in ("OK", "NO", "BAD") else "NONE", fetched=fetched,
                       code=code, vt=int(math.ceil(max(r.vt, 0))), text=(r.tagged or {}).get("text", "")[:70])
             rec[f"c{i + 1}"] = c2
